@@ -233,6 +233,8 @@ def relations(rng, tier, rpt):
         a, b = json.loads(snap0), json.loads(snap1)
         diff = [(x["family"], x["member"], [k for k in x if x.get(k) != y.get(k)]) for x, y in zip(a, b) if x != y] or b[:1]
         rep("coin constants differ after the end-to-end flows (a wrapper edited a shared configuration object)", "Cip1852 + CardanoShelley flows", str(diff[:4]), "unchanged")
+        rpt.extra["impl_end_to_end_checks"] = n
+        return bad[:8]          # the remaining relations read the configurations again and assume they are the registered ones
     rpt.extra["impl_end_to_end_checks"] = n
     rpt.extra["per_key_parameter_checks"] = _per_key_params(rng, tier, rep, seed)
     rpt.extra["option_isolation_checks"] = _option_isolation(rng, tier, rep, seed)
@@ -250,7 +252,13 @@ def _option_isolation(rng, tier, rep, seed):
     from gen.gen_coins import rows, snapshot
     purpose = {"Bip44": 44, "Bip49": 49, "Bip84": 84, "Bip86": 86, "Cip1852": 1852}
     skip = ("confId", "variant")
-    ref = {(r["family"], r["member"], r["variant"]): {k: v for k, v in r.items() if k not in skip} for r in rows()}
+    try:
+        all_rows = rows()
+    except BaseException as ex:  # noqa  the same call succeeded in this process before the flows (pre_build): the configuration objects changed
+        rep("the coin configurations can no longer be read through their public accessors after the end-to-end flows of this run "
+            "(a flow edited a shared configuration object)", "gen_coins.rows() after the C08 relations", "%s: %s" % (type(ex).__name__, ex), "the registry rows")
+        return 0
+    ref = {(r["family"], r["member"], r["variant"]): {k: v for k, v in r.items() if k not in skip} for r in all_rows}
     mem = [(fam, m.name, getter.GetConfig(m)) for fam, (cls, en, getter) in FAM.items() for m in en]
     switches, seen = [], set()
     for (fam, name, var) in ref:
@@ -485,7 +493,12 @@ def _per_key_params(rng, tier, rep, seed):
     from gen.gen_coins import rows
     from bip_utils import Bip44Changes, AdaByronAddrDecoder
     done = 0
-    allrows = rows()
+    try:
+        allrows = rows()
+    except BaseException as ex:  # noqa  the same call succeeded in this process before the flows (pre_build): the configuration objects changed
+        rep("the coin configurations can no longer be read through their public accessors after the end-to-end flows of this run "
+            "(a flow edited a shared configuration object)", "gen_coins.rows() after the C08 flows", "%s: %s" % (type(ex).__name__, ex), "the registry rows")
+        return 0
     sample = set(range(len(allrows))) if tier == "thorough" else set(rng.sample(range(len(allrows)), 10))
     nkeys = 4
     for ri, r in enumerate(allrows):
